@@ -9,7 +9,8 @@ configuration runs the real Context.get_iter under a product of processor / max_
 allow_lazy / max_messages / rechunk settings (threaded runs under OS threads and, for a subset,
 under the deterministic scheduler with seeded schedules); TLC judges every recorded output stream -
 and every data type stored by the request, re-read by a fresh context - against the P-level
-(DataflowTrace.tla).
+(DataflowTrace.tla).  The message bus of the single-thread processor has its own specification, spec/PostOffice.tla,
+bound lock-step to the real PostOffice (harness/postoffice.py).
 """
 import itertools
 import json
@@ -193,6 +194,12 @@ def run(chk):
     chk.traces += len(traces)
     chk.extra["configuration_space"] = space["n"]
     chk.extra["configurations_run"] = ncfg
+    # the single-thread processor's bus: PostOffice.tla replayed lock-step on the real PostOffice
+    import postoffice
+    po_drift = postoffice.run_part(chk, "C01")
+    if po_drift:
+        chk.extra["postoffice_drift_note"] = ("the real PostOffice left the state graph of PostOffice.tla (internal state); the verdict is by the "
+                                              "P-level clauses on the real observations")
     chk.extra["executions"] = len(work)
     chk.extra["under_dsched"] = sum(1 for w in work if w[1]["dsched"])
     chk.sample(dict(cfg=res[0]["cfg"], setting=res[0]["setting"], traces=res[0]["traces"][:1]))
@@ -207,6 +214,13 @@ def run(chk):
 
 def replay(chk, path):
     rp = json.load(open(path))["replay"]
+    if "postoffice" in rp:
+        import postoffice
+        c = rp["postoffice"]["cfg"]
+        c["producers"] = {k: (tuple(v[0]), tuple(v[1]), v[2]) for k, v in c["producers"].items()}
+        bad, pr = postoffice.replay_one(c, rp["postoffice"]["path"])
+        print(bad or "holds", pr)
+        return 1 if bad else 0
     rr = execute((rp["cfg"], rp["setting"], rp["seed"]))
     print(rr["err"], rr["traces"])
     return 1 if rr["err"] else 0
